@@ -26,8 +26,33 @@ def main():
             rc = mod.main(a.tier, a.seed)
     except SystemExit:
         raise
-    except Exception:
+    except Exception as err:
         traceback.print_exc()
+        # Where did it come from?  An exception raised INSIDE the code under test, on an input of the check's fixed corpus
+        # that the reference tree handles, escaping to the driver's top level, is the implementation leaving its
+        # specified behaviour (the drivers wrap every call whose refusal is legitimate); anything raised by the harness
+        # itself is a machinery failure.
+        tb = traceback.extract_tb(err.__traceback__)
+        inner = tb[-1].filename if tb else ""
+        if not a.replay and os.path.abspath(inner).startswith(os.path.abspath(common.SRC)):
+            import json, time, hashlib
+            d = os.path.join(common.VERIF, "replays", pid)
+            os.makedirs(d, exist_ok=True)
+            text = "".join(traceback.format_exception(type(err), err, err.__traceback__))
+            path = os.path.join(d, "LibraryRaised_%s.json" % hashlib.sha1(text.encode()).hexdigest()[:12])
+            json.dump({"property": pid, "monitor": "LibraryRaisedOnCheckedInput", "detail": {"exception": repr(err), "raised_in": "%s:%d %s" % (
+                tb[-1].filename, tb[-1].lineno, tb[-1].name), "traceback": text[-3000:]}, "replay": None, "tier": a.tier, "seed": a.seed},
+                open(path, "w"), indent=1)
+            json.dump({"property_id": pid, "tier": a.tier, "seed": a.seed, "level": "other", "violations": 1, "wall_s": 0.0,
+                       "coverage": {"explanation": "the run was cut short: the code under test raised %r at %s:%d on an input of the "
+                                    "check's fixed corpus and the exception escaped to the driver; reported as a violation, nothing else "
+                                    "was evaluated" % (err, tb[-1].filename, tb[-1].lineno)}},
+                      open(os.path.join(common.VERIF, "evidence", "%s.json" % pid), "w"), indent=1)
+            print("VIOLATION property=%s replay=%s" % (pid, path))
+            print("  monitor=LibraryRaisedOnCheckedInput %r raised in %s:%d (%s)" % (err, tb[-1].filename, tb[-1].lineno, tb[-1].name))
+            print("%s FAIL tier=%s seed=%d: the code under test raised on a checked input (run cut short)" % (pid, a.tier, a.seed))
+            sys.stdout.flush()
+            sys.exit(1)
         sys.stderr.write("MACHINERY FAILURE in %s\n" % pid)
         sys.exit(2)
     sys.stdout.flush()
